@@ -470,3 +470,35 @@ def check_input_untouched(ctx):
     ctx.decide(len(calls) == 1 and not raw, "OWN", init.qualname, (init, calls[0]) if calls else init,
                "a new track adds its droplets through append (copy on insert)",
                "DropletTrack.__init__ stores the given droplets without going through append: new tracks share the time course's droplet objects")
+
+
+# -------------------------------------------------------------------------------------------------- round 11
+def check_no_early_exit(ctx, rule="PATHCOUNT"):
+    """every call of a matcher runs to its end: the step that opens new tracks for the droplets that were not linked comes last,
+    so a `return` on the way (for instance "every distance is beyond the cut-off") loses every droplet of that frame.  A return
+    is harmless only where the frame has no droplet at all."""
+    m = ctx.model
+    outer, ms = matchers(ctx)
+    n = 0
+    for kind, fi in sorted(ms.items()):
+        fv = view(m, fi)
+        si = stmt_index(fv)
+        em_p = fi.params[0] if fi.params else "emulsion"
+        bad = None
+        from ..cfg import walk_no_nested
+
+        for r in walk_no_nested(fi.node):
+            if not isinstance(r, ast.Return) or r is fi.node:
+                continue
+            guards = [(U(t), p) for t, p in si.effective_guards(r)]
+            empty_ok = any((t in (f"len({em_p}) == 0", f"not {em_p}", f"len({em_p}) < 1") and p) or (t in (f"len({em_p}) > 0", em_p, f"len({em_p}) != 0", f"len({em_p}) >= 1") and not p)
+                           for t, p in guards)
+            if not empty_ok:
+                bad = r
+                break
+        n += 1
+        ctx.decide(bad is None, rule, f"{fi.qualname}[{kind}]:runs-to-end", (fi, bad) if bad is not None else fi,
+                   "the matcher has no exit before the step that stores the droplets that were not linked",
+                   f"the matcher returns early (guards: {[t for t, _ in si.effective_guards(bad)] and [U(t)[:50] for t, _ in si.effective_guards(bad)] if bad is not None else ''}) although the frame may hold droplets: "
+                   "those that were not linked are never stored in a new track — every droplet of such a frame is lost")
+    return n
